@@ -20,72 +20,177 @@ OPS = {"__lt__": ast.Lt, "__le__": ast.LtE, "__gt__": ast.Gt, "__ge__": ast.GtE,
 
 
 # ------------------------------------------------------------------ E7
+class _Ret(Exception):
+    def __init__(self, value: Any) -> None:
+        self.value = value
+
+
 def interval_predicate(fn: ast.AST, methods: Optional[Dict[str, ast.AST]] = None) -> Tuple[Callable[[Dict[str, int]], bool], List[str], str]:
-    """Extract the boolean function of the four interval bounds that Measurement.__eq__
-    returns on its main path.  Bounds are locals assigned `<x>.measurand -/+ <x>.uncertainty`."""
+    """The boolean function of the four interval bounds that Measurement.__eq__ returns when both
+    operands are measurements of one dimension.  Obtained by a small partial evaluation of the
+    method's AST over the domain {operand, operand.field, bound, tuple, predicate}: helper methods of
+    the class are inlined (the coercion helper returns its Measurement argument unchanged, bound
+    helpers return `measurand -/+ uncertainty`), guards that reject other kinds of operands are
+    not taken."""
+    methods = methods or {}
     params = [a.arg for a in fn.args.args]  # type: ignore[attr-defined]
     me, other = params[0], params[1]
-    bounds: Dict[str, str] = {}
-    defs: Dict[str, ast.AST] = {}
+    used: Set[str] = set()
 
-    def bound_of(v: ast.AST, depth: int = 0) -> Optional[str]:
-        """`<x>.measurand -/+ <x>.uncertainty`, directly or through a method that returns it."""
-        if isinstance(v, ast.BinOp) and isinstance(v.op, (ast.Add, ast.Sub)) \
-                and isinstance(v.left, ast.Attribute) and v.left.attr == "measurand" \
-                and isinstance(v.right, ast.Attribute) and v.right.attr == "uncertainty" \
-                and ast.unparse(v.left.value) == ast.unparse(v.right.value):
-            return f"{ast.unparse(v.left.value)}.{'upper' if isinstance(v.op, ast.Add) else 'lower'}"
-        if isinstance(v, ast.Call) and isinstance(v.func, ast.Attribute) and not v.args and not v.keywords and depth < 2 and methods:
-            m = methods.get(v.func.attr)
-            if m is not None:
-                rets = [r for r in ast.walk(m) if isinstance(r, ast.Return) and r.value is not None]
-                if len(rets) == 1:
-                    inner = bound_of(rets[0].value, depth + 1)
-                    if inner is not None and m.args.args and inner.split(".")[0] == m.args.args[0].arg:
-                        return f"{ast.unparse(v.func.value)}.{inner.split('.')[1]}"
-        return None
-    for st in ast.walk(fn):
-        if isinstance(st, ast.Assign) and len(st.targets) == 1 and isinstance(st.targets[0], ast.Name):
-            name = st.targets[0].id
-            b = bound_of(st.value)
-            if b is not None and b.split(".")[0] in (me, other):
-                who = "self" if b.split(".")[0] == me else "other"
-                bounds[name] = f"{who}.{b.split('.')[1]}"
-            else:
-                defs[name] = st.value
-    if len(set(bounds.values())) < 4:
-        raise AnalysisError(f"Measurement.__eq__: expected the four bounds measurand -/+ uncertainty of both operands, found {sorted(bounds.values())}")
-    rets = [r for r in ast.walk(fn) if isinstance(r, ast.Return) and r.value is not None
-            and not (isinstance(r.value, ast.Constant)) and ast.unparse(r.value) != "NotImplemented"]
-    if len(rets) != 1:
-        raise AnalysisError(f"Measurement.__eq__: expected one non-constant return, found {len(rets)}")
-    expr = rets[0].value
-
-    def ev(e: ast.AST, env: Dict[str, int]) -> Any:
+    def ev(e: ast.AST, env: Dict[str, Any], depth: int) -> Any:
         if isinstance(e, ast.Name):
-            if e.id in bounds:
-                return env[bounds[e.id]]
-            if e.id in defs:
-                return ev(defs[e.id], env)
-            raise AnalysisError(f"Measurement.__eq__: `{e.id}` is not an interval bound or a local predicate")
-        if isinstance(e, ast.BoolOp):
-            vals = [ev(v, env) for v in e.values]
-            return all(vals) if isinstance(e.op, ast.And) else any(vals)
-        if isinstance(e, ast.UnaryOp) and isinstance(e.op, ast.Not):
-            return not ev(e.operand, env)
+            return env.get(e.id, ("unknown", e.id))
+        if isinstance(e, ast.Constant):
+            return ("const", e.value)
+        if isinstance(e, ast.Attribute):
+            b = ev(e.value, env, depth)
+            if isinstance(b, tuple) and b and b[0] == "meas" and e.attr in ("measurand", "uncertainty"):
+                return ("field", b[1], e.attr)
+            return ("unknown", ast.unparse(e))
+        if isinstance(e, ast.BinOp) and isinstance(e.op, (ast.Add, ast.Sub)):
+            l, r = ev(e.left, env, depth), ev(e.right, env, depth)
+            if l[0] == "field" and r[0] == "field" and l[1] == r[1] and l[2] == "measurand" and r[2] == "uncertainty":
+                b = f"{l[1]}.{'upper' if isinstance(e.op, ast.Add) else 'lower'}"
+                used.add(b)
+                return ("bound", b)
+            return ("unknown", ast.unparse(e))
+        if isinstance(e, ast.Tuple):
+            return ("tuple", [ev(x, env, depth) for x in e.elts])
         if isinstance(e, ast.Compare):
-            vals = [ev(e.left, env)] + [ev(c, env) for c in e.comparators]
-            ok = True
-            for op, a, b in zip(e.ops, vals, vals[1:]):
-                r = {ast.Lt: a < b, ast.LtE: a <= b, ast.Gt: a > b, ast.GtE: a >= b, ast.Eq: a == b, ast.NotEq: a != b}.get(type(op))
-                if r is None:
-                    raise AnalysisError(f"Measurement.__eq__: operator {type(op).__name__} in the overlap predicate")
-                ok = ok and r
-            return ok
-        if isinstance(e, ast.Constant) and isinstance(e.value, bool):
-            return e.value
-        raise AnalysisError(f"Measurement.__eq__: unsupported expression {ast.unparse(e)[:40]} in the overlap predicate")
-    return (lambda env: bool(ev(expr, env))), sorted(set(bounds.values())), ast.unparse(expr)
+            vals = [ev(e.left, env, depth)] + [ev(c, env, depth) for c in e.comparators]
+            if len(e.ops) == 1 and isinstance(e.ops[0], (ast.Is, ast.IsNot)) and vals[1] == ("const", None):
+                if vals[0][0] == "meas":
+                    return ("const", isinstance(e.ops[0], ast.IsNot))
+                return ("unknown", ast.unparse(e))
+            if all(v[0] == "bound" for v in vals):
+                return ("cmp", [type(o) for o in e.ops], [v[1] for v in vals])
+            return ("unknown", ast.unparse(e))
+        if isinstance(e, ast.BoolOp):
+            vs = [ev(v, env, depth) for v in e.values]
+            is_and = isinstance(e.op, ast.And)
+            # short-circuit on decided operands first: `isinstance(..) and <anything>`
+            for v in vs:
+                if v[0] == "const" and bool(v[1]) != is_and:
+                    return ("const", not is_and)
+                if v[0] != "const":
+                    break
+            vs = [v for v in vs if v[0] != "const"]
+            if not vs:
+                return ("const", is_and)
+            if any(v[0] == "unknown" for v in vs):
+                return ("unknown", ast.unparse(e))
+            return vs[0] if len(vs) == 1 else ("and" if is_and else "or", vs)
+        if isinstance(e, ast.UnaryOp) and isinstance(e.op, ast.Not):
+            v = ev(e.operand, env, depth)
+            if v[0] == "const":
+                return ("const", not v[1])
+            return ("unknown", ast.unparse(e)) if v[0] == "unknown" else ("not", v)
+        if isinstance(e, ast.Call):
+            f = e.func
+            if isinstance(f, ast.Name) and f.id == "isinstance" and len(e.args) == 2:
+                v = ev(e.args[0], env, depth)
+                kinds = {ast.unparse(k).split(".")[-1] for k in (e.args[1].elts if isinstance(e.args[1], ast.Tuple) else [e.args[1]])}
+                if v[0] == "meas":
+                    return ("const", "Measurement" in kinds)
+                return ("unknown", ast.unparse(e))
+            if isinstance(f, ast.Attribute) and f.attr in methods and depth < 3:
+                recv = ev(f.value, env, depth)
+                m = methods[f.attr]
+                margs = [a.arg for a in m.args.args]  # type: ignore[attr-defined]
+                static = any(ast.unparse(d) == "staticmethod" for d in getattr(m, "decorator_list", []))
+                actual = [ev(a, env, depth) for a in e.args]
+                if not static:
+                    actual = [recv] + actual
+                if len(actual) <= len(margs):
+                    inner = dict(zip(margs, actual))
+                    try:
+                        run_block(m.body, inner, depth + 1)  # type: ignore[attr-defined]
+                    except _Ret as r:
+                        return r.value
+                return ("unknown", ast.unparse(e))
+            return ("unknown", ast.unparse(e))
+        return ("unknown", ast.unparse(e))
+
+    def assign(t: ast.AST, v: Any, env: Dict[str, Any]) -> None:
+        if isinstance(t, ast.Name):
+            env[t.id] = v
+        elif isinstance(t, (ast.Tuple, ast.List)) and isinstance(v, tuple) and v[0] == "tuple" and len(v[1]) == len(t.elts):
+            for a, b in zip(t.elts, v[1]):
+                assign(a, b, env)
+
+    def run_block(body: List[ast.stmt], env: Dict[str, Any], depth: int) -> None:
+        for st in body:
+            if isinstance(st, ast.Assign):
+                v = ev(st.value, env, depth)
+                for t in st.targets:
+                    assign(t, v, env)
+            elif isinstance(st, ast.AnnAssign) and st.value is not None:
+                assign(st.target, ev(st.value, env, depth), env)
+            elif isinstance(st, ast.Return):
+                raise _Ret(ev(st.value, env, depth) if st.value is not None else ("const", None))
+            elif isinstance(st, ast.If):
+                t = ev(st.test, env, depth)
+                if t[0] == "const":
+                    run_block(st.body if t[1] else st.orelse, env, depth)
+                elif t[0] == "unknown":
+                    # a guard about something else (dimension, kind of operand): not taken when it only rejects
+                    if st.body and isinstance(st.body[-1], (ast.Return, ast.Raise)) and not st.orelse:
+                        continue
+                    run_block(st.body, env, depth)
+                else:
+                    raise AnalysisError(f"Measurement.__eq__: branch on the interval bounds (`{ast.unparse(st.test)[:40]}`) is outside the extractor")
+            elif isinstance(st, ast.Try):
+                run_block(st.body, env, depth)
+            elif isinstance(st, (ast.Expr, ast.Pass)):
+                continue
+            else:
+                raise AnalysisError(f"Measurement.__eq__: statement `{ast.unparse(st)[:40]}` is outside the extractor")
+
+    env0: Dict[str, Any] = {me: ("meas", "self"), other: ("meas", "other")}
+    try:
+        run_block(fn.body, env0, 0)  # type: ignore[attr-defined]
+        raise AnalysisError("Measurement.__eq__: no return reached for two measurements")
+    except _Ret as r:
+        result = r.value
+    if result[0] in ("unknown", "const", "meas", "field", "bound", "tuple"):
+        raise AnalysisError(f"Measurement.__eq__: for two measurements it returns `{result[1] if len(result) > 1 else result}`, not a predicate "
+                            "over the interval bounds measurand -/+ uncertainty")
+    if len(used) < 4:
+        raise AnalysisError(f"Measurement.__eq__: expected the four bounds measurand -/+ uncertainty of both operands, found {sorted(used)}")
+
+    def holds(p: Any, o: Dict[str, int]) -> bool:
+        if p[0] == "const":
+            return bool(p[1])
+        if p[0] == "not":
+            return not holds(p[1], o)
+        if p[0] == "and":
+            return all(holds(x, o) for x in p[1])
+        if p[0] == "or":
+            return any(holds(x, o) for x in p[1])
+        if p[0] == "cmp":
+            vals = [o[b] for b in p[2]]
+            okc = True
+            for op, a, b in zip(p[1], vals, vals[1:]):
+                r_ = {ast.Lt: a < b, ast.LtE: a <= b, ast.Gt: a > b, ast.GtE: a >= b, ast.Eq: a == b, ast.NotEq: a != b}.get(op)
+                if r_ is None:
+                    raise AnalysisError(f"Measurement.__eq__: operator {op.__name__} in the overlap predicate")
+                okc = okc and r_
+            return okc
+        raise AnalysisError(f"Measurement.__eq__: unsupported predicate node {p[0]}")
+
+    def text(p: Any) -> str:
+        if p[0] == "const":
+            return str(p[1])
+        if p[0] == "not":
+            return f"not ({text(p[1])})"
+        if p[0] in ("and", "or"):
+            return f" {p[0]} ".join(text(x) for x in p[1])
+        sym = {ast.Lt: "<", ast.LtE: "<=", ast.Gt: ">", ast.GtE: ">=", ast.Eq: "==", ast.NotEq: "!="}
+        out = p[2][0]
+        for op, b in zip(p[1], p[2][1:]):
+            out += f" {sym.get(op, '?')} {b}"
+        return out
+    return (lambda o: holds(result, o)), sorted(used), text(result)
 
 
 def weak_orders(atoms: List[str]) -> List[Dict[str, int]]:
